@@ -426,13 +426,15 @@ def driver_build(extract_targets, timeout=1500):
 
 def parse_result(path):
     """result.txt of a mode-B harness module: `key value` lines, `kind <k> <n>`, `DISAGREE ...`, `ORACLE ...`."""
-    res = {"kinds": {}, "disagree": [], "oracle": [], "samples": []}
+    res = {"kinds": {}, "disagree": [], "oracle": [], "samples": [], "known": []}
     for line in open(path):
         line = line.rstrip("\n")
         if line.startswith("DISAGREE "):
             res["disagree"].append(line[9:])
         elif line.startswith("ORACLE "):
             res["oracle"].append(line[7:])
+        elif line.startswith("KNOWN "):
+            res["known"].append(line[6:])
         elif line.startswith("SAMPLE "):
             res["samples"].append(line[7:])
         elif line.startswith("kind "):
@@ -489,6 +491,12 @@ def modeb_check(run, prop, harness_name, extract, entry, rule, trusted_extra=(),
     run.extra["oracle_queries"] = res.get("oracle_queries", 0)
     run.oblige("implementation-only oracle (the property checked directly on the real code)", not res["oracle"])
     run.oblige("correspondence %s: extracted model = implementation on every case" % prop, not res["disagree"])
+    for k in res["known"]:
+        m = re.match(r"key=(\S+)\s+(.*)", k)
+        if m:
+            # a reproduced finding: reported as KNOWN-FINDING when listed in known_findings.json, as a VIOLATION otherwise
+            run.violation("known finding reproduced: " + m.group(2)[:200], {"finding_key": m.group(1), "entry": entry,
+                          "input": m.group(2)})
     if res["oracle"]:
         run.violation("the real code violates the property", {"entry": entry, "input": res["oracle"][0],
                       "count": len(res["oracle"]), "disagreeing": "implementation-only oracle"})
